@@ -90,6 +90,8 @@ type Exec struct {
 	boundIDs  map[types.Object]int
 	groupOf   map[*Term]*Term
 	retryOrd  map[*ssa.Function]int
+	iterOrdOf map[ssa.Instruction]int
+	iterCount map[*ssa.Function]int
 	cancelID  int
 }
 
@@ -1055,19 +1057,15 @@ func (x *Exec) step(fr *Frame, st *State, ins ssa.Instruction) {
 		st.setH(key, Store(h, arr, ConstArray(arraySort("Int", sortOf(et)), zeroTerm(et))))
 		fr.regs[ins] = Value{T: Mk(sortSlice, arr, Int(0), n, c)}
 	case *ssa.MakeMap:
-		fr.regs[ins] = Value{T: x.newRef(st)}
+		fr.regs[ins] = x.doMakeMap(fr, st, ins)
 	case *ssa.MakeChan:
 		fr.regs[ins] = x.doMakeChan(fr, st, ins)
 	case *ssa.Slice:
 		fr.regs[ins] = x.doSlice(fr, st, ins)
 	case *ssa.Lookup:
-		if tup, ok := ins.Type().(*types.Tuple); ok {
-			fr.regs[ins] = x.freshVal(st, "lookup", tup)
-		} else {
-			fr.regs[ins] = x.freshVal(st, "lookup", ins.Type())
-		}
+		fr.regs[ins] = x.doLookup(fr, st, ins)
 	case *ssa.MapUpdate:
-		x.notes["map update treated as no-op on abstract map"] = true
+		x.doMapUpdate(fr, st, ins)
 	case *ssa.Range:
 		fr.regs[ins] = Value{T: Fresh("rangeiter", "Int")}
 	case *ssa.Next:
